@@ -51,7 +51,9 @@ VALUES = [None, True, False, 0, -1.5, 7, 'plain', '', '$', '$x{a}', ' ${verif_fi
 OBJ_REFS = ['verif_fixtures.CONST_A', 'verif_fixtures.CONST_LIST', 'verif_fixtures.Holder.attr',
             'verif_fixtures.Holder.Inner.deep', 'verif_fixtures.helper_function', 'verif_fixtures.PlainA', 'math.pi',
             'verif_fixtures.ZERO', 'verif_fixtures.NOTHING', 'verif_fixtures.EMPTY', 'verif_fixtures.FALSE',
-            'verif_fixtures.EMPTY_TEXT']
+            'verif_fixtures.EMPTY_TEXT',
+            # names below a sub-package whose modules nobody has imported yet
+            'verif_pkg.sub.leaf.TOKEN', 'verif_pkg.sub.leaf.Deep.attr']
 RES_PATHS = ['r1', 'dir.r2', 'dir.sub.r3', 'dir.r4',
              # keys may contain any character but the delimiter - a closing brace too (the reference ends at the LAST one)
              'dir.r2}x', 'r1}']
@@ -83,6 +85,32 @@ class LazyRes:
 
     def __repr__(self):
         return 'resource of %s' % self.handle.tag
+
+
+def resolve_name(name):
+    """the Python object a dotted name denotes (longest importable module prefix, then attributes) - resolved here,
+    not by the library function under test"""
+    import importlib
+    parts = name.split('.')
+    for cut in range(len(parts), 0, -1):
+        try:
+            obj = importlib.import_module('.'.join(parts[:cut]))
+        except ImportError:
+            continue
+        for attr in parts[cut:]:
+            obj = getattr(obj, attr)
+        return obj
+    raise ImportError(name)
+
+
+class LazyObj:
+    """expected value of a ${dotted.name} argument in a world FILE: resolved when the loaded world is compared (by
+    then the library has imported what it needed; identity is judged against those very modules)"""
+    def __init__(self, name):
+        self.name = name
+
+    def __repr__(self):
+        return 'object named %s' % self.name
 
 
 def decode_arg(p):
@@ -172,9 +200,15 @@ def _run(case, tmp):
             return v, copy.deepcopy(v), False
         if kind == 'obj':
             name = OBJ_REFS[ix]
-            obj = desper.object_from_string(name)
             facts['ref_object'] += 1
-            return ('${%s}' % name if as_file else obj), obj, True
+            if as_file:
+                return '${%s}' % name, LazyObj(name), True
+            if name.startswith('verif_pkg.'):
+                # (names below the sub-package are only ever resolved by the library itself, from world files: the
+                # first such load of a process meets modules nobody has imported yet)
+                name = OBJ_REFS[0]
+            obj = resolve_name(name)
+            return obj, obj, True
         path = RES_PATHS[ix]
         if kind == 'res':
             facts['ref_res'] += 1
@@ -440,6 +474,8 @@ def build_item(it, dotted, typ, render, as_file, tag):
 def same(got, exp, ident):
     if isinstance(exp, LazyRes):
         exp = exp.handle()
+    if isinstance(exp, LazyObj):
+        exp = resolve_name(exp.name)
     if ident:
         return got is exp
     return type(got) is type(exp) and got == exp
